@@ -254,6 +254,8 @@ def frame_cases(draw, tier, manager):
                 "fill": draw(st.integers(0, 8)),
             }
         )
+        if draw(st.integers(0, 4)) == 0:
+            gt[-1]["pr"] = [draw(fl(-0.4, 0.4)), draw(fl(-0.4, 0.4))]  # annotated box with roll / pitch
     sc = st.one_of(st.just(1.0), fl(0.5, 2.0))
     cfg = {
         "s0": draw(sc),
@@ -421,7 +423,22 @@ def _cls_margin(m, mg):
     return "in" if m > mg else ("out" if m < -mg else "unc")
 
 
+_FP_CACHE = {}
+
+
+def _is_tilted(b):
+    return bool(b.get("pr")) and (b["pr"][0] != 0.0 or b["pr"][1] != 0.0)
+
+
 def _box_margin(b, s, row):
+    if _is_tilted(b):
+        key = (tuple(b["p"]), b["yaw"], b.get("qs", 1), tuple(b["pr"]), tuple(b["size"]), s)
+        poly = _FP_CACHE.get(key)
+        if poly is None:
+            if len(_FP_CACHE) > 256:
+                _FP_CACHE.clear()
+            poly = _FP_CACHE[key] = _tilted_footprint(b, s)
+        return _tilted_margin(b, s, row, poly)
     w, l, h = b["size"]
     mxy = G.point_in_box_local((row[0], row[1]), b["p"][0], b["p"][1], b["yaw"], w, l, s)
     return min(mxy, h / 2 - abs(row[2] - b["p"][2]))
